@@ -1420,7 +1420,7 @@ func c3Equals(c *Ctx, byType map[string][]fieldLit) {
 	// Path exploration with the receiver's FieldType fixed to each constant in turn (helpers inline): which
 	// comparison of the payload can be reached for that type?
 	nEq := 0
-	var badEq, badBytes []string
+	var badEq, badBytes, badDirected []string
 	nPaths := 0
 	for _, k := range c.ConstsOfType(CorePath, ftNamed) {
 		kv, _ := ConstObjInt(k)
@@ -1445,6 +1445,9 @@ func c3Equals(c *Ctx, byType map[string][]fieldLit) {
 							return "bytes.Equal"
 						case "reflect.DeepEqual":
 							return "DeepEqual"
+						case "errors.Is", "errors.As", "strings.HasPrefix", "strings.HasSuffix", "strings.Contains", "bytes.HasPrefix", "bytes.Contains":
+							// a relation that treats its two arguments differently cannot give a symmetric Equals
+							badDirected = append(badDirected, tn+": "+f.FullName())
 						}
 					}
 				}
@@ -1481,6 +1484,7 @@ func c3Equals(c *Ctx, byType map[string][]fieldLit) {
 		}
 	}
 	badEq = uniqSorted(badEq)
+	c.Check(len(badDirected) == 0, "R3.7", fn.String(), "symmetric-relations-only", fn.Pos(), "Equals compares payloads with symmetric relations only (==, bytes.Equal, time.Equal, reflect.DeepEqual); a directed one (errors.Is unwraps only its first argument) makes a.Equals(b) differ from b.Equals(a): %v", uniqSorted(badDirected))
 	c.Check(len(badEq) == 0, "R3.7", fn.String(), "interface-eq-only-for-comparable-payloads", fn.Pos(), "over %d paths (FieldType fixed to each of its constants, helpers inline; %d reach a == on interface-carrying operands): such a == is reachable only for field types whose Interface payload has a comparable concrete static type; offending: %v (an uncomparable dynamic value makes == panic)", nPaths, nEq, badEq)
 	c.Check(len(badBytes) == 0, "R3.7", fn.String(), "bytes-equal-only-for-byte-payloads", fn.Pos(), "bytes.Equal is reached only for field types whose payload is []byte: %v", uniqSorted(badBytes))
 }
